@@ -311,6 +311,8 @@ pub fn main(twins: &'static [Twin]) {
             "C02" => has("wrap"),
             "C11" => has("cap"),
             "C17" => has("big") || has("nest"),
+            // nested spawn macros: inherited thread names `<caller>_join_<i>_join_<j>` (innermost branches log their thread name)
+            "C08" => has("nest") && t.tags.contains("spawn"),
             _ => true,
         };
         if !want {
@@ -399,7 +401,7 @@ pub fn main(twins: &'static [Twin]) {
             }
             let ncalls = ml.iter().filter(|e| e.k == K::Call).count();
             let nt = match prop.as_str() {
-                "C17" | "C19" => true,
+                "C17" | "C19" | "C08" => true,
                 "C02" => ncalls >= 1,
                 "C11" => ml.iter().filter(|e| e.k == K::Cap).count() >= 1,
                 _ => ncalls >= 1,
